@@ -247,6 +247,73 @@ func c09Check(c c09Case) error {
 			break
 		}
 	}
+	// (1e) re-reading really reads: after the parsed header was cleared by the caller (ROM.Header is an exported field),
+	// ReadHeader on the same object brings every field back from the unchanged image
+	{
+		r.Header = snes.Header{}
+		if err := r.ReadHeader(); err != nil {
+			return fmt.Errorf("ReadHeader after the parsed header was cleared: %v", err)
+		}
+		if err := c09CheckFields(c.Header, &r.Header); err != nil {
+			return fmt.Errorf("after ROM.Header was cleared and the unchanged image was re-read on the same ROM object: %v", err)
+		}
+		if err := r.WriteHeader(); err != nil {
+			return fmt.Errorf("WriteHeader after re-reading: %v", err)
+		}
+		if !bytes.Equal(r.Contents, orig) {
+			i := firstDiff(r.Contents, orig)
+			return fmt.Errorf("ROM.Header cleared, image re-read, written back: image byte at cartridge $%04X changed %02x -> %02x", 0x8000+i&0x7FFF, orig[i], r.Contents[i])
+		}
+	}
+	// (1f) a write-back that fails (HeaderOffset beyond the image: error or panic, recovered by the caller) changes
+	// nothing and leaves the object usable: the next edit + re-read + write-back round trip works as before
+	{
+		r.HeaderOffset = uint32(len(orig)) + 0x1000
+		_ = rig.Safe(func() error { return r.WriteHeader() })
+		r.HeaderOffset = 0x7FB0
+		if !bytes.Equal(r.Contents, orig) {
+			return fmt.Errorf("a failing WriteHeader (HeaderOffset beyond the image) changed the image at file offset $%X", firstDiff(r.Contents, orig))
+		}
+		pos := (c.FlipPos + 41) % 80
+		nv := c.FlipVal ^ 0x3C
+		if nv == c.Header[pos] {
+			nv ^= 0x55
+		}
+		want := append([]byte(nil), orig...)
+		want[0x7FB0+pos] = nv
+		r.Contents[0x7FB0+pos] = nv
+		if err := r.ReadHeader(); err != nil {
+			return fmt.Errorf("ReadHeader after a failed WriteHeader: %v", err)
+		}
+		if err := r.WriteHeader(); err != nil {
+			return fmt.Errorf("WriteHeader after a failed WriteHeader: %v", err)
+		}
+		if !bytes.Equal(r.Contents, want) {
+			i := firstDiff(r.Contents, want)
+			return fmt.Errorf("after a failed WriteHeader (HeaderOffset beyond the image, recovered), edit + ReadHeader + WriteHeader changed image byte at cartridge $%04X: %02x -> %02x", 0x8000+i&0x7FFF, want[i], r.Contents[i])
+		}
+		r.Contents[0x7FB0+pos] = c.Header[pos]
+		if err := r.ReadHeader(); err != nil {
+			return fmt.Errorf("ReadHeader: %v", err)
+		}
+	}
+	// (1g) the exported fields are the interface: a ROM put together by the caller (struct literal with the contents,
+	// the header location and a Header parsed with Header.ReadHeader) writes that header back to where it came from
+	{
+		var h snes.Header
+		if err := h.ReadHeader(bytes.NewReader(c.Header)); err != nil {
+			return fmt.Errorf("Header.ReadHeader: %v", err)
+		}
+		img3 := append([]byte(nil), orig...)
+		r3 := &snes.ROM{Name: "literal", Contents: img3, HeaderOffset: 0x7FB0, Header: h}
+		if err := rig.Safe(func() error { return r3.WriteHeader() }); err != nil {
+			return fmt.Errorf("WriteHeader on a ROM built as a struct literal: %v", err)
+		}
+		if !bytes.Equal(img3, orig) {
+			i := firstDiff(img3, orig)
+			return fmt.Errorf("a ROM built as a struct literal (contents, HeaderOffset $7FB0, Header parsed with Header.ReadHeader): WriteHeader changed image byte at cartridge $%04X: %02x -> %02x (version %d)", 0x8000+i&0x7FFF, orig[i], img3[i], c09Version(c.Header))
+		}
+	}
 	// (1c) the header may sit elsewhere in the image (HiROM $FFB0, images with a 512-byte copier header): ROM.HeaderOffset
 	for _, off := range []uint32{0xFFB0, 0x81B0} {
 		if int(off)+0x50 > len(orig) {
